@@ -144,6 +144,12 @@ theorem gen_lock_discipline :
        "Stop: h.mtx.Lock(); defer h.mtx.Unlock()", "CanAccept: h.mtx.Lock(); defer h.mtx.Unlock()",
        "Accept: h.mtx.Lock(); defer h.mtx.Unlock()"] := by decide
 
+/-- the out channels hold every message of a session (at most N per round plus the abort notice): the
+    constructor and Accept never block on a consumer that is not reading yet -/
+theorem gen_out_capacity : MpsGen.Session.outCapacity =
+    [ "make(chan *Message, (int(r.FinalRoundNumber())+1)*(r.N()+1))", "make(chan *Message, int(r.FinalRoundNumber())+2)" ] := by
+  decide
+
 /-- `Stop` as modelled: returns at once when the session has ended, aborts otherwise -/
 theorem gen_stop :
     MpsGen.Session.multiHandlerStop = ["h.err != nil || h.result != nil => ", "h.abort(errors.New(\"aborted by user\"), h.currentRound.SelfID())"] ∧
